@@ -9,7 +9,9 @@
 //! case:   `<kind> <hexsrc> [stall=<n>:<ms>] [trace=1] ; costs <name>=<cost>* ; <tok name>* ; ...`
 //!         (n = 0 or no `stall=`: never stall)
 //! result: exactly the line of `repair` (grammar dump, automaton dump, X, KN, CO, AV, then per input
-//!         I / ER / RS / VL / ZL / TM) and additionally per input, after TM:
+//!         I / BO / ER / RS / VL / ZL / TM; BO = order of the builder's setter calls, chosen as in `repair`:
+//!         `.term_costs(..)` before `.recoverer(..)` iff input index + input length is odd) and additionally per
+//!         input, after TM:
 //!   `# NF <new_faulty calls in this parse> <1 if the stall happened else 0> <ms into the parse at which it began>`
 //!   `# TR <run-length coded event trace>` (with trace=1), events in call order:
 //!         f = new_faulty of an ordinary token      e = new_faulty of the end-of-input token
@@ -121,13 +123,18 @@ impl LexerTypes for StallLexerTypes {
     type LexErrorT = LRLexError;
 }
 
-/// replays a token list: lexeme i has span (2i, 2i+1) (as gvh::common::ReplayLexer)
+/// replays a token list: lexeme i has span (2i, 2i+1) (as gvh::common::ReplayLexer); single-shot as that one:
+/// a second `iter()` call on one lexer object panics (Lexer::iter gives no guarantees on a second call)
 struct StallReplayLexer {
     toks: Vec<u32>,
+    iterated: Cell<bool>,
 }
 
 impl Lexer<StallLexerTypes> for StallReplayLexer {
     fn iter<'a>(&'a self) -> Box<dyn Iterator<Item = Result<StallLexeme, LRLexError>> + 'a> {
+        if self.iterated.replace(true) {
+            panic!("{}", ITER_TWICE_MSG);
+        }
         Box::new(self.toks.iter().enumerate().map(|(i, t)| Ok(StallLexeme::new(*t, 2 * i, 1))))
     }
 }
@@ -202,8 +209,8 @@ fn rle(ev: &[u8]) -> String {
     o
 }
 
-fn parse_with_recovery(b: &Built, toks: &[u32], costs: &[u8], stall: (usize, u64), tracing: bool, o: &mut String) {
-    let lexer = StallReplayLexer { toks: toks.to_vec() };
+fn parse_with_recovery(b: &Built, toks: &[u32], costs: &[u8], costs_first: bool, stall: (usize, u64), tracing: bool, o: &mut String) {
+    let lexer = StallReplayLexer { toks: toks.to_vec(), iterated: Cell::new(false) };
     let odd = Cell::new(0usize);
     reset(stall.0, stall.1, u32::from(b.grm.eof_token_idx()), tracing);
     let t0 = Instant::now();
@@ -212,7 +219,12 @@ fn parse_with_recovery(b: &Built, toks: &[u32], costs: &[u8], stall: (usize, u64
             event(b'c');
             costs[usize::from(t)]
         };
-        let pb = RTParserBuilder::<u32, StallLexerTypes>::new(&b.grm, &b.st).recoverer(RecoveryKind::CPCTPlus).term_costs(&cf);
+        let pb = RTParserBuilder::<u32, StallLexerTypes>::new(&b.grm, &b.st);
+        let pb = if costs_first {
+            pb.term_costs(&cf).recoverer(RecoveryKind::CPCTPlus)
+        } else {
+            pb.recoverer(RecoveryKind::CPCTPlus).term_costs(&cf)
+        };
         pb.parse_map(
             &lexer,
             &|l: StallLexeme| {
@@ -344,7 +356,7 @@ fn main() {
                 write!(o, " {}", usize::from(t)).unwrap();
             }
         }
-        for inp in parts {
+        for (idx, inp) in parts.enumerate() {
             let mut toks: Vec<u32> = Vec::new();
             let mut ok = true;
             for n in inp.split_whitespace() {
@@ -360,7 +372,9 @@ fn main() {
             for t in &toks {
                 write!(o, " {}", t).unwrap();
             }
-            parse_with_recovery(&b, &toks, &costs, stall, tracing, &mut o);
+            let costs_first = (idx + toks.len()) % 2 == 1;
+            write!(o, " # BO {}", if costs_first { 1 } else { 0 }).unwrap();
+            parse_with_recovery(&b, &toks, &costs, costs_first, stall, tracing, &mut o);
         }
         o
     });
